@@ -234,10 +234,10 @@ Definition t_space_tab : text := [34; 32; 92; 116; 34].     (* the Go raw string
 Definition render_call (name : text) (params : list text) : text :=
   name ++ 40 :: join comma_space params ++ [41].
 
-(* paramDecremented *)
+(* paramDecremented; the guard `if asInt < 0 { return param }` is present iff gen/LegacyTable.v says so *)
 Definition param_decremented (p : text) : text :=
   match atoi p with
-  | Some z => itoa (int64_pred z)
+  | Some z => if decremented_keeps_negative && (z <? 0)%Z then p else itoa (int64_pred z)
   | None => as_operand p prec_addition ++ t_minus_one
   end.
 
